@@ -56,6 +56,16 @@ Definition m_ocgrfile (k : nat) (S : Z) (norm : bool) (recs : list (list N)) : l
 Definition s_ocgrfile (k : nat) (S : Z) (norm : bool) (recs : list (list N)) : list N :=
   dec_nat (length recs) ++ [35] ++ join semi (map (s_ocgr k S norm) recs).
 
+(* the batch loops of CgrComputer::vectorise and OligoCgrComputer::vectorise as written: push the record, flush when
+   the bases buffered reach the memory limit, final flush when the buffer is non-empty *)
+Definition m_cgrfile_mem (S : Z) (mem : nat) (recs : list (list N)) : list N :=
+  match all_some (batch_go (list N) _ (cgr_b64 corner_cgr S) (@length N) true mem [] 0 recs []) with
+  | Some rows => dec_nat (length rows) ++ [35] ++ join semi (map (fun l => join comma (map show_fpt l)) rows)
+  | None => err end.
+Definition m_ocgrfile_mem (k : nat) (S : Z) (norm : bool) (mem : nat) (recs : list (list N)) : list N :=
+  let rows := batch_go (list N) _ (m_ocgr k S norm) (@length N) true mem [] 0 recs [] in
+  dec_nat (length rows) ++ [35] ++ join semi rows.
+
 (* ---------- Python batch calls: the list of per-sequence results in argument order ---------- *)
 Definition m_obatch (k : nat) (norm : bool) (recs : list (list N)) : list N :=
   dec_nat (length recs) ++ [35] ++ join semi (map (m_oligo k norm) recs).
